@@ -56,6 +56,25 @@ func c07Core(c *eng.Ctx) {
 		}
 	})
 	var helper *globHelper
+	// cf is the function holding the compile chain, patV the pattern there:
+	// Match itself, or a single-pattern helper Match hands its pattern to
+	cf, patV := match, ssa.Value(pat)
+	var viaHelper *ssa.Call
+	if compile == nil && matchCall != nil {
+		if hc, _ := eng.TupleCall(matchCall.Call.Args[0]); hc != nil {
+			if cal := eng.Callee(&hc.Call); cal != nil && cal.Blocks != nil && eng.FuncPkg(cal) == p.TypesPkg("acl") && len(cal.Params) == 1 && isStringType(cal.Params[0].Type()) && len(hc.Call.Args) == 1 && eng.OriginConv(hc.Call.Args[0]) == ssa.Value(pat) {
+				if cc := regexpCompileIn(cal); cc != nil {
+					cf, patV, compile, viaHelper = cal, ssa.Value(cal.Params[0]), cc, hc
+				}
+			}
+		}
+	}
+	if viaHelper != nil {
+		for _, r := range eng.Returns(cf) {
+			rv := eng.RetVals(r)
+			c.Check(len(rv) == 1 && eng.Same(rv[0], regexpOf(compile)), "R-C07-1", cf, r.Pos(), "result of compile helper "+eng.FName(cf), "the expression compiled from its pattern argument", "returns "+eng.InstrStr(r))
+		}
+	}
 	if compile == nil && matchCall != nil {
 		if h, handled := c07ViaHelper(c, match, matchCall); handled {
 			helper = h
@@ -74,31 +93,22 @@ func c07Core(c *eng.Ctx) {
 	// R-C07-1: format / join / split / quote chain
 	var format, wild, sep string
 	var parts ssa.Value
+	var joinCall *ssa.Call
 	chainOK := false
 	detail := ""
 	func() {
-		sp, _ := eng.TupleCall(compile.Call.Args[0])
-		if sp == nil || !eng.CalleeIs(&sp.Call, "fmt", "Sprintf") {
-			detail = "compiled expression is not fmt.Sprintf(constant, ...): " + eng.ValStr(compile.Call.Args[0])
-			return
-		}
-		f, isC := eng.ConstString(sp.Call.Args[0])
-		if !isC {
-			detail = "format is not a constant"
+		f, operand, det := templateOf(compile.Call.Args[0])
+		if det != "" {
+			detail = det
 			return
 		}
 		format = f
-		pa := eng.Path{Blocks: []*ssa.BasicBlock{sp.Block()}}
-		elems, known := pa.SliceElems(sp.Call.Args[1])
-		if !known || len(elems) != 1 {
-			detail = "format takes other than exactly one operand"
-			return
-		}
-		jn, _ := eng.TupleCall(elems[0])
+		jn, _ := eng.TupleCall(operand)
 		if jn == nil || !eng.CalleeIs(&jn.Call, "strings", "Join") {
-			detail = "format operand is not strings.Join(...): " + eng.ValStr(elems[0])
+			detail = "format operand is not strings.Join(...): " + eng.ValStr(operand)
 			return
 		}
+		joinCall = jn
 		w, isC := eng.ConstString(jn.Call.Args[1])
 		if !isC {
 			detail = "Join separator is not a constant"
@@ -112,14 +122,14 @@ func c07Core(c *eng.Ctx) {
 			return
 		}
 		sp2, isC := eng.ConstString(spl.Call.Args[1])
-		if !isC || eng.OriginConv(spl.Call.Args[0]) != ssa.Value(pat) {
+		if !isC || eng.OriginConv(spl.Call.Args[0]) != patV {
 			detail = "Split is not applied to the pattern with a constant separator"
 			return
 		}
 		sep = sp2
 		chainOK = true
 	}()
-	c.Check(chainOK, "R-C07-1", match, compile.Pos(), "expression compiled in Match", "MustCompile(Sprintf(F, Join(Split(pattern, \"*\") with every piece quoted, W)))", detail)
+	c.Check(chainOK, "R-C07-1", cf, compile.Pos(), "expression compiled in "+eng.FName(cf), "MustCompile(Sprintf(F, Join(Split(pattern, \"*\") with every piece quoted, W)))", detail)
 	if !chainOK {
 		return
 	}
@@ -127,13 +137,13 @@ func c07Core(c *eng.Ctx) {
 	// every piece quoted: a full-range loop over parts storing QuoteMeta(parts[i]) into parts[i] on every iteration
 	quoted := false
 	qdetail := "no full-range loop over the pieces found"
-	for _, l := range eng.RangeLoops(match) {
+	for _, l := range eng.RangeLoops(cf) {
 		if !eng.Same(l.Slice, parts) && l.Slice != parts {
 			continue
 		}
 		// find store parts[idx] = QuoteMeta(parts[idx]) in the loop
 		var st *ssa.Store
-		eng.Instrs(match, func(in ssa.Instruction) {
+		eng.Instrs(cf, func(in ssa.Instruction) {
 			s, ok := in.(*ssa.Store)
 			if !ok || !l.InLoop(s.Block()) {
 				return
@@ -151,7 +161,7 @@ func c07Core(c *eng.Ctx) {
 			continue
 		}
 		// on every iteration: from the body entry, the header cannot be reached again without passing the store
-		hit, path := eng.SearchBlock(match, l.Body, nil, func(in ssa.Instruction) bool { return in == ssa.Instruction(st) }, func(in ssa.Instruction) bool { return in.Block() == l.Header || eng.IsReturn(in) })
+		hit, path := eng.SearchBlock(cf, l.Body, nil, func(in ssa.Instruction) bool { return in == ssa.Instruction(st) }, func(in ssa.Instruction) bool { return in.Block() == l.Header || eng.IsReturn(in) })
 		if l.Body.Instrs[0] == ssa.Instruction(st) {
 			hit = nil
 		}
@@ -160,12 +170,7 @@ func c07Core(c *eng.Ctx) {
 			continue
 		}
 		// the loop lies between Split and Join: Join is dominated by the loop's done block
-		jn, _ := eng.TupleCall(func() ssa.Value {
-			sp, _ := eng.TupleCall(compile.Call.Args[0])
-			pa := eng.Path{Blocks: []*ssa.BasicBlock{sp.Block()}}
-			e, _ := pa.SliceElems(sp.Call.Args[1])
-			return e[0]
-		}())
+		jn := joinCall
 		if !l.Done.Dominates(jn.Block()) {
 			qdetail = "Join is not executed after the quoting loop has finished"
 			continue
@@ -173,7 +178,7 @@ func c07Core(c *eng.Ctx) {
 		quoted = true
 	}
 	// no other store into the pieces
-	eng.Instrs(match, func(in ssa.Instruction) {
+	eng.Instrs(cf, func(in ssa.Instruction) {
 		s, ok := in.(*ssa.Store)
 		if !ok {
 			return
@@ -185,7 +190,7 @@ func c07Core(c *eng.Ctx) {
 			}
 		}
 	})
-	c.Check(quoted, "R-C07-1", match, compile.Pos(), "quoting of the literal pieces", "every piece between wildcards passes through regexp.QuoteMeta before it reaches the expression", qdetail)
+	c.Check(quoted, "R-C07-1", cf, compile.Pos(), "quoting of the literal pieces", "every piece between wildcards passes through regexp.QuoteMeta before it reaches the expression", qdetail)
 	// val reaches only MatchString (and the equality short-cut)
 	if refs := val.Referrers(); refs != nil {
 		for _, r := range *refs {
@@ -203,15 +208,66 @@ func c07Core(c *eng.Ctx) {
 			}
 		}
 	}
-	c.Check(eng.Origin(matchCall.Call.Args[1]) == ssa.Value(val) && eng.Same(matchCall.Call.Args[0], regexpOf(compile)), "R-C07-1", match, matchCall.Pos(), eng.CallStr(&matchCall.Call), "MatchString(compiled template, name)", "")
+	compiled := regexpOf(compile)
+	if viaHelper != nil {
+		compiled = viaHelper
+	}
+	c.Check(eng.Origin(matchCall.Call.Args[1]) == ssa.Value(val) && eng.Same(matchCall.Call.Args[0], compiled), "R-C07-1", match, matchCall.Pos(), eng.CallStr(&matchCall.Call), "MatchString(compiled template, name)", "")
 
 	// R-C07-2 template analysis
-	c07Template(c, match, compile, format, wild)
+	c07Template(c, cf, compile, format, wild)
 
 	c07Returns(c, match, matchCall)
 
 	c07Rules(c)
 	c07NoPanic(c)
+}
+
+// templateOf reduces the expression handed to regexp.Compile to a constant
+// format with exactly one operand: fmt.Sprintf(F, x), or a concatenation of
+// constants around one non-constant operand ("(?s)^" + x + "$"), which is
+// rendered as the equivalent format (literal % doubled).
+func templateOf(v ssa.Value) (format string, operand ssa.Value, detail string) {
+	if sp, _ := eng.TupleCall(v); sp != nil && eng.CalleeIs(&sp.Call, "fmt", "Sprintf") {
+		f, isC := eng.ConstString(sp.Call.Args[0])
+		if !isC {
+			return "", nil, "format is not a constant"
+		}
+		pa := eng.Path{Blocks: []*ssa.BasicBlock{sp.Block()}}
+		elems, known := pa.SliceElems(sp.Call.Args[1])
+		if !known || len(elems) != 1 {
+			return "", nil, "format takes other than exactly one operand"
+		}
+		return f, elems[0], ""
+	}
+	var pieces []ssa.Value
+	var flatten func(v ssa.Value) bool
+	flatten = func(v ssa.Value) bool {
+		o := eng.Origin(v)
+		if b, ok := o.(*ssa.BinOp); ok && b.Op == token.ADD && isStringType(b.Type()) {
+			return flatten(b.X) && flatten(b.Y)
+		}
+		pieces = append(pieces, o)
+		return len(pieces) <= 16
+	}
+	if _, isAdd := eng.Origin(v).(*ssa.BinOp); !isAdd || !flatten(v) {
+		return "", nil, "compiled expression is neither fmt.Sprintf(constant, ...) nor a concatenation of constants around one operand: " + eng.ValStr(v)
+	}
+	for _, pc := range pieces {
+		if cs, isC := eng.ConstString(pc); isC {
+			format += strings.ReplaceAll(cs, "%", "%%")
+			continue
+		}
+		if operand != nil {
+			return "", nil, "the concatenation has more than one non-constant operand"
+		}
+		operand = pc
+		format += "%s"
+	}
+	if operand == nil {
+		return "", nil, "the compiled expression is a constant"
+	}
+	return format, operand, ""
 }
 
 // c07Returns: R-C07-3.
@@ -410,80 +466,230 @@ func c07RulesWith(c *eng.Ctx, helper *globHelper) {
 		c.Check(okk, "R-C07-4", rulesAllow, rulesAllow.Pos(), "Rules.Allow", want+" (same action and secret, every rule examined)", "predicate found: "+sum.pred.String())
 	}
 	// Rule.Allow: conjunction of two exists
+	c07RuleAllow(c, ruleAllow, match, helper)
+}
+
+// c07RuleAllow decides that Rule.Allow computes
+//
+//	(exists a in r.Action: a == action) && (exists s in r.Secret: s.Match(secret))
+//
+// whatever way it is written: the two membership tests are recognised as
+// atoms (a local predicate with an exists-loop, slices.Contains,
+// slices.ContainsFunc with a Match literal, or the compiled-alternation
+// helper), every path of the function is reduced to the atoms it branches on
+// and the value it returns, and the resulting truth table is compared with
+// A && S.
+func c07RuleAllow(c *eng.Ctx, ruleAllow, match *ssa.Function, helper *globHelper) {
 	want2 := "Rule.Allow == (exists a in r.Action: a == action) && (exists s in r.Secret: s.Match(secret))"
-	rets := eng.Returns(ruleAllow)
-	if len(rets) != 1 {
-		c.Undecided("R-C07-4", ruleAllow, ruleAllow.Pos(), "shape of Rule.Allow", "expected a single return of a conjunction")
+	if len(ruleAllow.Params) != 3 {
+		c.Undecided("R-C07-4", ruleAllow, ruleAllow.Pos(), "shape of Rule.Allow", "expected (receiver, action, secret)")
 		return
 	}
-	rv := eng.RetVals(rets[0])
-	conj, ok := conjunctionOf(rv[0])
-	if !ok {
-		if _, isOr := disjunctionOf(rv[0]); isOr {
-			c.Bad("R-C07-4", ruleAllow, rets[0].Pos(), "Rule.Allow result "+eng.ValStr(rv[0]), want2, "the two conditions are combined with || (either one suffices)")
-		} else {
-			c.Undecided("R-C07-4", ruleAllow, rets[0].Pos(), "Rule.Allow result "+eng.ValStr(rv[0]), "not a recognised && of two calls")
+	recv, actionP, secretP := ssa.Value(ruleAllow.Params[0]), ssa.Value(ruleAllow.Params[1]), ssa.Value(ruleAllow.Params[2])
+	failed := false
+	cache := map[ssa.Value]string{}
+	recvField := func(v ssa.Value) string {
+		fr, base, isF := eng.LoadedField(v)
+		if !isF || eng.Origin(base) != recv {
+			return ""
 		}
-		return
+		return fr.Name
 	}
-	sawAction, sawSecret := false, false
-	for _, v := range conj {
+	atom := func(v ssa.Value) string {
 		call, _ := eng.TupleCall(v)
 		if call == nil {
-			c.Undecided("R-C07-4", ruleAllow, rets[0].Pos(), "conjunct "+eng.ValStr(v), "not a call")
-			return
+			return ""
+		}
+		if a, ok := cache[call]; ok {
+			return a
+		}
+		res := ""
+		defer func() { cache[call] = res }()
+		cal0 := call.Call.StaticCallee()
+		if cal0 != nil && cal0.Origin() != nil {
+			cal0 = cal0.Origin() // instantiation of a generic function
+		}
+		if cal := cal0; cal != nil && cal.Pkg != nil && cal.Pkg.Pkg.Path() == "slices" {
+			name := cal.Name()
+			if i := strings.Index(name, "["); i >= 0 {
+				name = name[:i]
+			}
+			switch {
+			case name == "Contains" && len(call.Call.Args) == 2 && recvField(call.Call.Args[0]) == "Action" && eng.Origin(call.Call.Args[1]) == actionP:
+				c.Ok("R-C07-4", ruleAllow, call.Pos(), "action predicate "+eng.CallStr(&call.Call), "slices.Contains(r.Action, action): element == action over the whole list")
+				res = "A"
+			case name == "ContainsFunc" && len(call.Call.Args) == 2 && recvField(call.Call.Args[0]) == "Secret":
+				mc, isMC := eng.Origin(call.Call.Args[1]).(*ssa.MakeClosure)
+				if !isMC {
+					return ""
+				}
+				g := mc.Fn.(*ssa.Function)
+				okk := len(g.Params) == 1
+				for _, r := range eng.Returns(g) {
+					rv := eng.RetVals(r)
+					pc, _ := eng.TupleCall(rv[0])
+					if pc == nil || eng.Callee(&pc.Call) != match || len(pc.Call.Args) != 2 || eng.Origin(pc.Call.Args[0]) != ssa.Value(g.Params[0]) || eng.Origin(pc.Call.Args[1]) != secretP {
+						okk = false
+					}
+				}
+				c.Check(okk, "R-C07-4", g, g.Pos(), "secret predicate "+eng.CallStr(&call.Call), "slices.ContainsFunc(r.Secret, func(p) bool { return p.Match(secret) }) with the function's secret parameter", "")
+				if okk {
+					res = "S"
+				} else {
+					failed = true
+				}
+			}
+			return res
 		}
 		cal := eng.Callee(&call.Call)
-		if cal == nil || len(call.Call.Args) != 1 {
-			c.Undecided("R-C07-4", ruleAllow, rets[0].Pos(), "conjunct "+eng.ValStr(v), "not a call of a local predicate over one slice")
-			return
+		if cal == nil || cal.Blocks == nil || len(call.Call.Args) != 1 || len(cal.Params) != 1 {
+			return ""
 		}
-		fr, base, isF := eng.LoadedField(call.Call.Args[0])
-		if !isF || eng.Origin(base) != ssa.Value(ruleAllow.Params[0]) {
-			c.Bad("R-C07-4", ruleAllow, call.Pos(), eng.CallStr(&call.Call), want2, "the predicate is not applied to a field of the receiver")
-			continue
+		fld := recvField(call.Call.Args[0])
+		if fld != "Action" && fld != "Secret" {
+			return ""
 		}
-		if helper != nil && fr.Name == "Secret" {
+		if helper != nil && fld == "Secret" {
 			// alternative form: compile(secs...).MatchString(secret), guarded for the empty list
 			okH := false
 			for _, r := range eng.Returns(cal) {
 				rv := eng.RetVals(r)
 				if mc, _ := eng.TupleCall(rv[0]); mc != nil && eng.CalleeIs(&mc.Call, "regexp", "*Regexp.MatchString") {
-					if hc, _ := eng.TupleCall(mc.Call.Args[0]); hc != nil && eng.Callee(&hc.Call) == helper.fn && eng.Origin(hc.Call.Args[0]) == ssa.Value(cal.Params[0]) && eng.Origin(mc.Call.Args[1]) == ssa.Value(ruleAllow.Params[2]) {
+					if hc, _ := eng.TupleCall(mc.Call.Args[0]); hc != nil && eng.Callee(&hc.Call) == helper.fn && eng.Origin(hc.Call.Args[0]) == ssa.Value(cal.Params[0]) && eng.Origin(mc.Call.Args[1]) == secretP {
 						okH = true
 					}
 				}
 			}
 			if okH {
 				c.Ok("R-C07-4", cal, cal.Pos(), "secret predicate via "+eng.FName(helper.fn), "the rule's whole pattern list compiled into one anchored alternation, matched against the function's secret parameter")
-				sawSecret = true
-				continue
+				res = "S"
+				return res
 			}
 		}
 		sum, ok := existsLoop(c, "R-C07-4", cal, want2)
 		if !ok || sum == nil {
-			continue
+			failed = true
+			return ""
 		}
 		if !eng.Same(sum.loop.Slice, cal.Params[0]) {
 			c.Bad("R-C07-4", cal, cal.Pos(), "loop of "+eng.FName(cal), want2, "does not range over its whole argument")
-			continue
+			failed = true
+			return ""
 		}
-		switch fr.Name {
+		switch fld {
 		case "Action":
 			op, x, y, isCmp := sum.pred.Cmp()
-			okk := isCmp && op == token.EQL && ((sum.loop.ElemOf(x) && eng.Origin(y) == ssa.Value(ruleAllow.Params[1])) || (sum.loop.ElemOf(y) && eng.Origin(x) == ssa.Value(ruleAllow.Params[1])))
+			okk := isCmp && op == token.EQL && ((sum.loop.ElemOf(x) && eng.Origin(y) == actionP) || (sum.loop.ElemOf(y) && eng.Origin(x) == actionP))
 			c.Check(okk, "R-C07-4", cal, cal.Pos(), "action predicate "+sum.pred.String(), "element == action (exact, case-sensitive comparison with the function's action parameter)", "")
-			sawAction = true
+			if okk {
+				res = "A"
+			} else {
+				failed = true
+			}
 		case "Secret":
 			pc, _, truth, isCall := sum.pred.BoolCall()
-			okk := isCall && truth && eng.Callee(&pc.Call) == match && sum.loop.ElemOf(pc.Call.Args[0]) && eng.Origin(pc.Call.Args[1]) == ssa.Value(ruleAllow.Params[2])
+			okk := isCall && truth && eng.Callee(&pc.Call) == match && sum.loop.ElemOf(pc.Call.Args[0]) && eng.Origin(pc.Call.Args[1]) == secretP
 			c.Check(okk, "R-C07-4", cal, cal.Pos(), "secret predicate "+sum.pred.String(), "element.Match(secret) with the function's secret parameter", "")
-			sawSecret = true
-		default:
-			c.Bad("R-C07-4", ruleAllow, call.Pos(), eng.CallStr(&call.Call), want2, "applied to field "+fr.Name)
+			if okk {
+				res = "S"
+			} else {
+				failed = true
+			}
+		}
+		return res
+	}
+	paths, ok := eng.EnumPaths(ruleAllow, 1, 64)
+	if !ok || len(paths) == 0 {
+		c.Undecided("R-C07-4", ruleAllow, ruleAllow.Pos(), "shape of Rule.Allow", "too many paths")
+		return
+	}
+	type row struct {
+		lits map[string]bool
+		res  string // "true", "false", "A", "S"
+	}
+	var rows []row
+	for _, pa := range paths {
+		ret, isR := pa.Last().(*ssa.Return)
+		if !isR {
+			c.Bad("R-C07-4", ruleAllow, pa.Last().Pos(), eng.InstrStr(pa.Last()), want2, "Rule.Allow can panic")
+			return
+		}
+		rw := row{lits: map[string]bool{}}
+		contradictory := false
+		for _, cd := range pa.Conds() {
+			v, truth, isB := cd.Bool()
+			a := ""
+			if isB {
+				a = atom(v)
+			}
+			if a == "" {
+				if !failed {
+					c.Undecided("R-C07-4", ruleAllow, cd.If.Pos(), "branch condition "+cd.String(), "not one of the two membership tests of Rule.Allow")
+				}
+				return
+			}
+			if old, has := rw.lits[a]; has && old != truth {
+				contradictory = true
+			}
+			rw.lits[a] = truth
+		}
+		if contradictory {
+			continue
+		}
+		rv := pa.Resolve(eng.RetVals(ret)[0])
+		if k, isC := rv.(*ssa.Const); isC && k.Value != nil {
+			rw.res = k.Value.String()
+		} else if a := atom(rv); a != "" {
+			rw.res = a
+		} else {
+			if !failed {
+				c.Undecided("R-C07-4", ruleAllow, ret.Pos(), "result "+eng.ValStr(rv), "neither a constant nor one of the two membership tests")
+			}
+			return
+		}
+		rows = append(rows, rw)
+	}
+	if failed {
+		return
+	}
+	for _, av := range []bool{false, true} {
+		for _, sv := range []bool{false, true} {
+			asg := map[string]bool{"A": av, "S": sv}
+			got, n := false, 0
+			conflict := false
+			for _, rw := range rows {
+				okRow := true
+				for a, t := range rw.lits {
+					if asg[a] != t {
+						okRow = false
+					}
+				}
+				if !okRow {
+					continue
+				}
+				var r bool
+				switch rw.res {
+				case "true":
+					r = true
+				case "false":
+					r = false
+				default:
+					r = asg[rw.res]
+				}
+				if n > 0 && r != got {
+					conflict = true
+				}
+				got = r
+				n++
+			}
+			site := "Rule.Allow with action-listed=" + boolStr(av) + " secret-matched=" + boolStr(sv)
+			if n == 0 || conflict {
+				c.Undecided("R-C07-4", ruleAllow, ruleAllow.Pos(), site, "no single outcome could be derived from the paths")
+				continue
+			}
+			c.Check(got == (av && sv), "R-C07-4", ruleAllow, ruleAllow.Pos(), site, want2+": result "+boolStr(av && sv), "result "+boolStr(got))
 		}
 	}
-	c.Check(sawAction && sawSecret && len(conj) == 2, "R-C07-4", ruleAllow, rets[0].Pos(), "Rule.Allow conjunction", want2, "conjuncts found: "+itoa(len(conj)))
 }
 
 // conjunctionOf decomposes a value produced by `a && b` (phi of false and b,
